@@ -1,3 +1,287 @@
 import TT.Model.ClientHello
+/-! helper lemmas for C12 (ClientHello random extraction) -/
 namespace TT.CH
+open TT TT.Bytes
+
+theorem len2 {l : Bytes} (h : l.length = 2) : ∃ a b, l = [a, b] := by
+  match l, h with
+  | [a, b], _ => exact ⟨a, b, rfl⟩
+
+theorem parse_body_shape (version random sid suites comps extpart : Bytes)
+    (hv : version.length = 2) (hr : random.length = 32) (hs : sid.length ≤ 32)
+    (hc : suites.length % 2 = 0) (hc2 : suites.length < 65536) :
+    parseClientHelloBody (version ++ random ++ [sid.length] ++ sid ++ u16be suites.length ++ suites
+      ++ [comps.length] ++ comps ++ extpart) = some random := by
+  obtain ⟨v0, v1, rfl⟩ := len2 hv
+  have e1 : ([v0, v1] ++ random ++ [sid.length] ++ sid ++ u16be suites.length ++ suites
+      ++ [comps.length] ++ comps ++ extpart) =
+      v0 :: v1 :: (random ++ (sid.length :: (sid ++ ((suites.length / 256 % 256) :: (suites.length % 256) :: (suites ++ (comps.length :: (comps ++ extpart))))))) := by
+    simp [u16be]
+  rw [e1]
+  unfold parseClientHelloBody
+  have hlen : ¬ ((v0 :: v1 :: (random ++ (sid.length :: (sid ++ ((suites.length / 256 % 256) :: (suites.length % 256) :: (suites ++ (comps.length :: (comps ++ extpart)))))))).length < 2 + 32 + 1) := by
+    simp; omega
+  rw [if_neg hlen]
+  have d34 : List.drop 34 (v0 :: v1 :: (random ++ (sid.length :: (sid ++ ((suites.length / 256 % 256) :: (suites.length % 256) :: (suites ++ (comps.length :: (comps ++ extpart)))))))) = (sid.length :: (sid ++ ((suites.length / 256 % 256) :: (suites.length % 256) :: (suites ++ (comps.length :: (comps ++ extpart)))))) := by
+    show List.drop 32 (random ++ _) = _
+    rw [← hr, List.drop_left]
+  have d2 : List.take 32 (List.drop 2 (v0 :: v1 :: (random ++ (sid.length :: (sid ++ ((suites.length / 256 % 256) :: (suites.length % 256) :: (suites ++ (comps.length :: (comps ++ extpart))))))))) = random := by
+    show List.take 32 (random ++ _) = _
+    rw [← hr, List.take_left]
+  simp only [d34, d2]
+  have hround : suites.length / 256 % 256 * 256 + suites.length % 256 = suites.length := by omega
+  simp [hround]
+  omega
+
+
+theorem extract_shape (a b : Nat) (body suffix r : Bytes)
+    (hp : parseClientHelloBody body = some r) (hfit : 4 + body.length ≤ maxRecordLen) :
+    extract (22 :: a :: b :: ((4 + body.length) / 256 % 256) :: ((4 + body.length) % 256) ::
+      1 :: (body.length / 65536 % 256) :: (body.length / 256 % 256) :: (body.length % 256) ::
+      (body ++ suffix)) = .found r := by
+  unfold maxRecordLen at hfit
+  have h2 : (body.length / 65536 % 256 * 256 + body.length / 256 % 256) * 256 + body.length % 256 = body.length := by omega
+  have h1 : (4 + body.length) / 256 % 256 * 256 + (4 + body.length) % 256 = 4 + body.length := by
+    clear h2; omega
+  unfold extract
+  simp only [h1]
+  rw [if_neg (by unfold maxRecordLen; omega)]
+  rw [if_neg (by simp; omega)]
+  have ht : List.take (4 + body.length) (1 :: (body.length / 65536 % 256) :: (body.length / 256 % 256) :: (body.length % 256) ::
+      (body ++ suffix)) = 1 :: (body.length / 65536 % 256) :: (body.length / 256 % 256) :: (body.length % 256) :: body := by
+    rw [Nat.add_comm]
+    simp [List.take_succ_cons]
+  simp only [ht, h2]
+  simp [hp]
+
+
+theorem parse_some {b r : Bytes} (h : parseClientHelloBody b = some r) :
+    r = (b.drop 2).take 32 ∧ 35 ≤ b.length := by
+  unfold parseClientHelloBody at h
+  split at h
+  · cases h
+  · rename_i hl
+    refine ⟨?_, by omega⟩
+    simp only at h
+    split at h
+    · cases h
+    · split at h
+      · cases h
+      · split at h
+        · cases h
+        · split at h
+          · split at h
+            · cases h
+            · split at h
+              · split at h
+                · cases h
+                · cases h; rfl
+              · cases h
+          · cases h
+
+theorem extract_prefix_shape (t a b l0 l1 : Nat) (rest : Bytes) (n : Nat)
+    (hl : l0 * 256 + l1 = rest.length) (hfit : rest.length ≤ maxRecordLen) (hn : n < 5 + rest.length) :
+    extract ((t :: a :: b :: l0 :: l1 :: rest).take n) = .needMore := by
+  match n, hn with
+  | 0, _ => rfl
+  | 1, _ => rfl
+  | 2, _ => rfl
+  | 3, _ => rfl
+  | 4, _ => rfl
+  | k + 5, hn =>
+    simp only [List.take_succ_cons]
+    unfold extract
+    simp only [hl]
+    rw [if_neg (by omega), if_pos (by simp; omega)]
+
+theorem found_is_the_field' (data r : Bytes) (h : extract data = .found r) :
+    r = (data.drop 11).take 32 ∧ data.head? = some 22 ∧ data[5]? = some 1 ∧ 43 ≤ data.length := by
+  unfold extract at h
+  split at h
+  · rename_i recType a b l0 l1 rest
+    simp only at h
+    split at h
+    · cases h
+    split at h
+    · cases h
+    split at h
+    · cases h
+    rename_i hlen hrest hty
+    split at h
+    · rename_i ht h0 h1 h2 body hpay
+      split at h
+      · cases h
+      rename_i hbody
+      split at h
+      · rename_i ht1
+        split at h
+        · rename_i r' hp
+          cases h
+          obtain ⟨hr, h35⟩ := parse_some hp
+          have ht1' : ht = 1 := by simpa using ht1
+          have hty' : recType = 22 := by simpa using hty
+          subst ht1' hty'
+          obtain ⟨X, hX⟩ : ∃ X, rest = 1 :: h0 :: h1 :: h2 :: (body.take ((h0 * 256 + h1) * 256 + h2) ++ X) := by
+            refine ⟨body.drop ((h0 * 256 + h1) * 256 + h2) ++ rest.drop (l0 * 256 + l1), ?_⟩
+            rw [← List.append_assoc, List.take_append_drop]
+            have := List.take_append_drop (l0 * 256 + l1) rest
+            rw [hpay] at this
+            exact this.symm
+          generalize body.take ((h0 * 256 + h1) * 256 + h2) = B at hX hr h35
+          subst hX hr
+          refine ⟨?_, rfl, rfl, by simp; omega⟩
+          show _ = List.take 32 (List.drop 2 (B ++ X))
+          rw [List.drop_append_of_le_length (by omega), List.take_append_of_le_length (by simp; omega)]
+        · cases h
+      · cases h
+    · cases h
+  · cases h
+
+
+theorem loop_conserves' (avail : List Nat) (pre stream : Bytes) :
+    (readLoop avail pre stream).2.1 ++ (readLoop avail pre stream).2.2 = pre ++ stream := by
+  induction avail generalizing pre stream with
+  | nil => rfl
+  | cons a avail ih =>
+    unfold readLoop
+    split
+    · rfl
+    split
+    · rfl
+    · rfl
+    · simp only
+      split
+      · rfl
+      · rw [ih]; simp
+
+theorem loop_absent' (avail : List Nat) (pre stream r : Bytes)
+    (h : (readLoop avail pre stream).1 = some r) :
+    r = ((pre ++ stream).drop 11).take 32 := by
+  induction avail generalizing pre stream with
+  | nil => simp [readLoop] at h
+  | cons a avail ih =>
+    unfold readLoop at h
+    split at h
+    · simp at h
+    split at h
+    · rename_i r' hex
+      simp only [Option.some.injEq] at h
+      subst h
+      obtain ⟨hr, _, _, hlen⟩ := found_is_the_field' _ _ hex
+      rw [hr, List.drop_append_of_le_length (by omega), List.take_append_of_le_length (by simp; omega)]
+    · simp at h
+    · simp only at h
+      split at h
+      · simp at h
+      · have := ih _ _ h
+        simpa using this
+
+theorem loop_seg' (record random : Bytes)
+    (hpre : ∀ n, n < record.length → extract (record.take n) = .needMore)
+    (hex : ∀ suffix, extract (record ++ suffix) = .found random)
+    (hfit : record.length + readChunk ≤ maxPrebuffer)
+    (suffix : Bytes) (avail : List Nat) (pre stream : Bytes)
+    (hcat : pre ++ stream = record ++ suffix)
+    (hcap : pre.length < maxPrebuffer)
+    (hlen : avail.length > record.length - pre.length) :
+    (readLoop avail pre stream).1 = some random := by
+  induction avail generalizing pre stream with
+  | nil => simp at hlen
+  | cons a avail ih =>
+    have hlens : pre.length + stream.length = record.length + suffix.length := by
+      have := congrArg List.length hcat
+      simpa using this
+    have hpe : pre = (record ++ suffix).take pre.length := by
+      rw [← hcat]; simp
+    unfold readLoop
+    rw [if_neg (by simpa using hcap)]
+    by_cases hlt : pre.length < record.length
+    · have hnm : extract pre = .needMore := by
+        rw [hpe, List.take_append_of_le_length (by omega)]
+        exact hpre _ hlt
+      rw [hnm]
+      simp only
+      unfold readChunk maxPrebuffer at *
+      have hn : ¬ (min (min (max a 1) (min 1024 (16384 - pre.length))) stream.length == 0) = true := by
+        simp only [beq_iff_eq]; omega
+      rw [if_neg hn]
+      apply ih
+      · simp [hcat]
+      · simp; omega
+      · simp only [List.length_cons, List.length_append, List.length_take] at hlen ⊢; omega
+    · have hf : extract pre = .found random := by
+        rw [hpe, List.take_append, List.take_of_length_le (by omega)]
+        exact hex _
+      rw [hf]
+
+
+theorem replay_transparent' (caps : List Nat) (pre rest : Bytes) (pos : Nat) (hp : pos ≤ pre.length) :
+    ∃ k, (replayReads caps pre pos rest).flatten = ((pre.drop pos) ++ rest).take k := by
+  induction caps generalizing pos rest with
+  | nil => exact ⟨0, by simp [replayReads]⟩
+  | cons cap caps ih =>
+    unfold replayReads
+    split
+    · rename_i hlt
+      simp only
+      obtain ⟨k, hk⟩ := ih rest (pos + min (pre.length - pos) cap) (by omega)
+      refine ⟨min (pre.length - pos) cap + k, ?_⟩
+      rw [List.flatten_cons, hk, List.take_add]
+      have e1 : List.take (min (pre.length - pos) cap) (List.drop pos pre ++ rest) =
+          List.take (min (pre.length - pos) cap) (List.drop pos pre) :=
+        List.take_append_of_le_length (by simp; omega)
+      have e2 : List.drop (min (pre.length - pos) cap) (List.drop pos pre ++ rest) =
+          List.drop (pos + min (pre.length - pos) cap) pre ++ rest := by
+        rw [List.drop_append_of_le_length (by simp; omega), List.drop_drop]
+      rw [e1, e2]
+    · rename_i hge
+      have hpos : pos = pre.length := by omega
+      obtain ⟨k, hk⟩ := ih (rest.drop cap) pos hp
+      refine ⟨cap + k, ?_⟩
+      rw [List.flatten_cons, hk, hpos]
+      simp [List.take_add]
+
+theorem replay_complete' (caps : List Nat) (pre rest : Bytes) (pos : Nat) (hc : ∀ c ∈ caps, 0 < c)
+    (hp : pos ≤ pre.length)
+    (hl : caps.length ≥ (pre.length - pos) + rest.length) :
+    (replayReads caps pre pos rest).flatten = pre.drop pos ++ rest := by
+  induction caps generalizing pos rest with
+  | nil =>
+    simp only [List.length_nil] at hl
+    have h1 : rest = [] := List.eq_nil_of_length_eq_zero (by omega)
+    have h2 : pre.drop pos = [] := List.drop_eq_nil_of_le (by omega)
+    simp [replayReads, h1, h2]
+  | cons cap caps ih =>
+    have hcap : 0 < cap := hc cap (by simp)
+    have hc' : ∀ c ∈ caps, 0 < c := fun c hcm => hc c (by simp [hcm])
+    simp only [List.length_cons] at hl
+    unfold replayReads
+    split
+    · rename_i hlt
+      simp only
+      rw [List.flatten_cons, ih rest (pos + min (pre.length - pos) cap) hc' (by omega) (by omega)]
+      rw [← List.append_assoc, ← List.drop_drop, List.take_append_drop]
+    · rename_i hge
+      rw [List.flatten_cons, ih (rest.drop cap) pos hc' hp (by simp; omega)]
+      have h2 : pre.drop pos = [] := List.drop_eq_nil_of_le (by omega)
+      simp [h2]
+
+theorem parse_chBody (version random sid suites comps exts : Bytes)
+    (hv : version.length = 2) (hr : random.length = 32) (hs : sid.length ≤ 32)
+    (hc : suites.length % 2 = 0) (hc2 : suites.length < 65536) :
+    parseClientHelloBody (chBody version random sid suites comps exts) = some random := by
+  unfold chBody
+  exact parse_body_shape version random sid suites comps _ hv hr hs hc hc2
+
+theorem chRecord_shape (a b : Nat) (version random sid suites comps exts : Bytes) :
+    chRecord [a, b] version random sid suites comps exts =
+      22 :: a :: b ::
+        ((4 + (chBody version random sid suites comps exts).length) / 256 % 256) ::
+        ((4 + (chBody version random sid suites comps exts).length) % 256) ::
+        1 :: ((chBody version random sid suites comps exts).length / 65536 % 256) ::
+        ((chBody version random sid suites comps exts).length / 256 % 256) ::
+        ((chBody version random sid suites comps exts).length % 256) ::
+        chBody version random sid suites comps exts := by
+  simp [chRecord, u16be, u24be]
+
 end TT.CH
